@@ -98,4 +98,22 @@ def templates(tier, seed):
                 for strict in (False, True):
                     ts.append(Template(f"T3/{pattern}/{''.join(arr)}/strict={strict}/N={N}", t_frame,
                                        (arr, strict, False, N, {"regex": pattern}), twin=None))
+    # label level with three declared columns (two of them optional or required, chosen by the solver) over every arrangement
+    import itertools
+
+    from props import c08
+
+    def t_lbl(v, *a):
+        r = c08.label_twin3_case(v, *a)
+        r["asserts"] = [("verdict", c) for l, c in r["asserts"] if l == "backend_equiv/label_pandas_as_documented"]
+        return r
+
+    for k in (1, 2, 3):
+        for sub in itertools.permutations(["a", "b", "c"], k):
+            for strict in (False, True, "filter"):
+                for ordered in (False, True):
+                    ts.append(Template(f"T2L/{''.join(sub)}/strict={strict}/ordered={int(ordered)}", t_lbl, (list(sub), strict, ordered)))
+    for arr in (["a", "x", "c"], ["x", "a", "b", "c"], ["a", "b", "x", "c"]):
+        for strict in (False, True, "filter"):
+            ts.append(Template(f"T2L/{''.join(arr)}/strict={strict}/ordered=1", t_lbl, (arr, strict, True)))
     return ts
